@@ -1,4 +1,6 @@
 """End-to-end witnesses on the real server (replays of fixed / known findings)."""
+import asyncio
+
 from pyvc.harness import Harness
 
 from .realsrv import World, run, uids_of
@@ -467,3 +469,59 @@ class ViewReplay(Harness):
         if err:
             return {"observed": err, "clause": "legal view at every step; view == server list after NOOP"}
         return None
+
+
+class ConcurrentExpunge(Harness):
+    """C10 / C03 / C15: a UID command issued while another session's EXPUNGE is running is applied to the messages its UIDs denote
+    when it runs -- not to whatever stands at the positions those UIDs had before the EXPUNGE (DESIGN F04)."""
+
+    scope = "5-message mailbox, session A expunges a subset of {1, 2, 1:2, 3} while session B issues UID STORE / UID COPY / UID FETCH for one of the UIDs 3..5 at the same time (asyncio.gather); the effect is read back by UID"
+    exhaustive = False
+
+    def inputs(self, tier, seed):
+        for dele in ("1", "2", "1:2", "3"):
+            for uid in (3, 4, 5):
+                for op in ("store", "copy", "fetch"):
+                    yield {"delete": dele, "uid": uid, "op": op}
+
+    def check(self, inp):
+        import re
+
+        async def go():
+            async with World({"inbox": 5, "other": 0}) as w:
+                a, b = w.session("A"), w.session("B")
+                await a.cmd("SELECT inbox")
+                await b.cmd("SELECT inbox")
+                await a.cmd(f"STORE {inp['delete']} +FLAGS.SILENT (\\Deleted)")
+                uid = inp["uid"]
+                cmd = {"store": f"UID STORE {uid} +FLAGS (\\Flagged)", "copy": f"UID COPY {uid} other", "fetch": f"UID FETCH {uid} (BODY.PEEK[HEADER.FIELDS (SUBJECT)])"}[inp["op"]]
+                ra, rb = await asyncio.gather(a.cmd("EXPUNGE"), b.cmd(cmd), return_exceptions=True)
+                if isinstance(rb, Exception):
+                    return f"{cmd}: raised {type(rb).__name__}: {rb}"
+                gone = {"1": {1}, "2": {2}, "1:2": {1, 2}, "3": {3}}[inp["delete"]]
+                c = w.session("C")
+                await c.cmd("SELECT inbox")
+                if inp["op"] == "store":
+                    text = "".join(await c.cmd("UID FETCH 1:* FLAGS"))
+                    flagged = sorted(int(m.group(2)) for m in re.finditer(r"FLAGS \(([^)]*)\) UID (\d+)", text) if "\\Flagged" in m.group(1))
+                    flagged += sorted(int(m.group(1)) for m in re.finditer(r"UID (\d+) FLAGS \(([^)]*)\)", text) if "\\Flagged" in m.group(2))
+                    want = [] if uid in gone else [uid]
+                    if sorted(set(flagged)) != want:
+                        return f"{cmd} during EXPUNGE of {inp['delete']}: \\Flagged is on UIDs {sorted(set(flagged))}, expected {want}"
+                elif inp["op"] == "copy":
+                    d = w.session("D")
+                    await d.cmd("SELECT other")
+                    text = "".join(await d.cmd("FETCH 1:* (BODY.PEEK[HEADER.FIELDS (SUBJECT)])")) if not any("* 0 EXISTS" in l for l in []) else ""
+                    subs = re.findall(r"[Ss]ubject: message (\d+)", text)
+                    want = [] if uid in gone else [str(uid)]
+                    if subs != want:
+                        return f"{cmd} during EXPUNGE of {inp['delete']}: copied messages {subs}, expected {want}"
+                else:
+                    subs = re.findall(r"[Ss]ubject: message (\d+)", "".join(rb))
+                    want = [] if uid in gone else [str(uid)]
+                    if subs != want:
+                        return f"{cmd} during EXPUNGE of {inp['delete']}: returned messages {subs}, expected {want}"
+                return None
+
+        err = run(go(), timeout=60)
+        return {"observed": err, "clause": "a command is applied to the messages its arguments denote when it runs"} if err else None
